@@ -499,7 +499,7 @@ class Codec:
         if isinstance(t, U):
             if v is None:
                 # docs are silent on null inside a *tagged* union; the implementations write {"null": null} and only read that form
-                return {"null": None} if (len(t.cases) > 1 and self.union_tagged(t)) else None
+                return {"null": None} if (len(t.cases) > 1 and self.union_tagged(t) and not getattr(self, "bare_null", False)) else None
             i, inner = v
             j = self.to_json(t.cases[i][1], inner)
             if self.union_tagged(t):
